@@ -172,42 +172,49 @@ CHECKS["C14"] = dict(
 )
 
 CHECKS["C05"] = dict(
-    engine="pegir+rx", category="proof",
+    engine="pegir+rx+pyvc", category="proof",
     text="Routing obligations on the real generated parser: every xonsh expression rule returns its builder's value unchanged; the xonsh alternatives of "
          "primary/atom/target_with_star_atom come where no earlier alternative can succeed on a xonsh opener (first-set disjointness) or before the "
          "alternative they extend (help before atom); '||'/'&&' reach the same action as 'or'/'and'; binding targets of assignment/for/with/"
-         "comprehension all go through star_target(s) where `$NAME`/`${e}` are Store alternatives. The SEARCH_PATH pattern is proved equal to the "
-         "documented backtick form (z3 regex). 14 constructs x 40 contexts against ast.parse of the written-out translation is the bounded stand-in.",
-    design_ref="DESIGN.md 5/C05",
-    note="NOT under contract: the builder bodies (load_attribute_chain, xonsh_call, expand_env_*, expand_search_path, handle_proc, proc_inject, "
-         "proc_pyexpr, expand_help): what they return is compared with the documented translation only by the stand-in. Assumed: C01 for the "
-         "written-out translation; first sets ignore lookaheads.",
-    technique="routing/ordering contracts on the generated parser's IR + regex-language obligation (z3 ReSort); builders bounded only",
+         "comprehension all go through star_target(s) where `$NAME`/`${e}` are Store alternatives. The builders are verified from their real bodies "
+         "(E1, helpers xonsh_call/load_attribute_chain executed inline): the tree returned by expand_env_name/expand_env_expr/expand_search_path/"
+         "proc_pyexpr/handle_proc/proc_inject/macro_call/handle_with_macro_stmt/expand_help IS CPython's parse of the documented translation text, with "
+         "the given context and the construct's positions on every built node. The SEARCH_PATH pattern is proved equal to the documented backtick "
+         "form (z3 regex). 14 constructs x 40 contexts against ast.parse of the written-out translation is the bounded stand-in.",
+    design_ref="DESIGN.md 5/C05, 9.8",
+    note="Assumed: C01 for the written-out translation; first sets ignore lookaheads; elements of list arguments are pairwise distinct objects; for "
+         "help chains `a?.b?` only the outermost call, the attribute name and the span are specified (not the full nesting).",
+    technique="routing/ordering contracts on the generated parser's IR + E1 postconditions `tree == parse(translation)` on the builder bodies (z3) + regex-language obligation",
 )
 CHECKS["C06"] = dict(
     engine="pegir+pyvc", category="proof",
     text="Bracket form -> runtime method table of sub_procs, `@(`/`@$(` builders and proc_cmds = proc_args(proc_cmd+) proved on the extracted IR of the "
          "real parser; adjacency is proved positional (Parser.is_adjacent <=> prev.end == curr.start, E1) and WS tokens are dropped by "
-         "Tokenizer.is_blank outside subprocess macros (E1); the shell-word alphabet consists of NAME/NUMBER/operator characters. Command lines of "
-         "<= 3 words from a 36-word pool x spacing x gluing vs an independent whitespace splitter is the bounded stand-in.",
-    design_ref="DESIGN.md 5/C06",
-    note="NOT under contract: the grouping loop Parser._proc_args/_append_node_or_token (mixed token/node lists) - bounded stand-in only. "
-         "Assumed: tokens tile the source (C08). Python keywords as command words are outside the domain.",
-    technique="table/routing contracts on the parser IR + E1 postconditions on is_adjacent/is_blank (z3); grouping loop bounded only",
+         "Tokenizer.is_blank outside subprocess macros (E1). The grouping loop is verified from its real body for lists of any length (E1, ~1250 VCs, "
+         "loop invariant over recursive spec functions): Parser._proc_args yields one argument per maximal run of adjacent pieces, each spanning its "
+         "run, a run ending exactly at a break or at the end; _append_node_or_token keeps start/end and appends the text of plain words; proc_args "
+         "returns that list; handle_proc/proc_inject hand it unchanged to the table's method. Command lines of <= 3 words from a 36-word pool x "
+         "spacing x gluing vs an independent whitespace splitter is the bounded stand-in.",
+    design_ref="DESIGN.md 5/C06, 9.8",
+    note="Assumed: tokens tile the source (C08); pieces that are nodes are modelled by class and positions; list elements are distinct objects. "
+         "Python keywords as command words are outside the domain.",
+    technique="table/routing contracts on the parser IR + E1 loop invariants/postconditions on the grouping loop, is_adjacent, is_blank (z3)",
 )
 CHECKS["C07"] = dict(
     engine="pegir+pyvc", category="proof",
-    text="Tokenizer.consume_macro_params (the call-macro raw-capture loop) is verified from its real body (282 VCs, z3): the text it returns is the "
+    text="Tokenizer.consume_macro_params (the call-macro raw-capture loop) is verified from its real body (z3): the text it returns is the "
          "concatenation, in order, of every raw token pulled before the delimiter (loop invariant over the ghost token stream), spans first.start..last.end, "
-         "the delimiter is a real `,`/`)` operator token, `)` is handed back and ends raw capture; Tokenizer.peek routes to the capture routine exactly when "
-         "its flag is set and appends the result unfiltered; is_blank keeps WS tokens under _proc_macro; flag protocol and routing of MACRO_PARAM "
-         "strings into macro_call / handle_with_macro_stmt on the parser IR. ~950 macro uses vs an independent bracket/string-aware splitter are the "
-         "bounded stand-in (bracket protection of commas and the with-macro capture are covered only there).",
+         "the delimiter is a real `,`/`)` operator token, `)` is handed back and ends raw capture; consume_with_macro_params is verified as to control "
+         "flow, flags and span; Tokenizer.peek routes to the capture routine exactly when its flag is set and appends the result unfiltered; is_blank "
+         "keeps WS tokens under _proc_macro; Parser.macro_call/handle_with_macro_stmt/proc_macro_arg build one string Constant per captured text, in "
+         "order, at the text's own position, and lower the flag (E1); flag protocol and routing of MACRO_PARAM strings on the parser IR. ~950 macro "
+         "uses vs an independent bracket/string-aware splitter are the bounded stand-in (bracket protection of commas and the with-macro block text "
+         "are covered only there).",
     design_ref="DESIGN.md 5/C07",
-    note="ASSUMED: contract of Tokenizer.consume_with_macro_params (body not verified); four ghost preconditions of consume_macro_params that its "
-         "call site in peek() cannot establish (stream not exhausted while the flag is set, empty push-back stack, non-empty operator lexemes, ordered "
-         "token positions) - listed in the evidence; textwrap.dedent external.",
-    technique="E1 loop invariants/postconditions on the real raw-capture loop (z3) + protocol/routing contracts on the parser IR; with-macro capture bounded only",
+    note="ASSUMED: four ghost preconditions of consume_macro_params that its call site in peek() cannot establish (stream not exhausted while the "
+         "flag is set, empty push-back stack, non-empty operator lexemes, ordered token positions) - listed in the evidence; the text captured by "
+         "consume_with_macro_params is opaque in its contract; textwrap.dedent external.",
+    technique="E1 loop invariants/postconditions on the real raw-capture loops and macro builders (z3) + protocol/routing contracts on the parser IR",
 )
 CHECKS["C10"] = dict(
     engine="gramref+pegir+pyvc", category="proof",
